@@ -8,7 +8,8 @@
    listeners within a bounded real time, that a login attempt itself terminates in bounded time. *)
 From Coq Require Import ZArith List Bool Lia.
 From FRP Require Import Model.Heartbeat Model.Backoff Model.Relogin
-  Proofs.HeartbeatProofs Proofs.BackoffProofs Proofs.ReloginProofs.
+  Proofs.HeartbeatProofs Proofs.BackoffProofs Proofs.ReloginProofs
+  gen.GenBackoffOpts Proofs.GenBackoffProofs.
 Import ListNotations.
 Open Scope Z_scope.
 
@@ -65,16 +66,17 @@ Theorem C14_disabled_never_closes : forall T evs s,
 Proof. exact hb_srv_disabled_never_closes. Qed.
 Print Assumptions C14_disabled_never_closes.
 
-(* which configurations switch it on: explicit positive value, or unset with tcpMux off (default 90) *)
+(* which configurations switch it on: explicit positive value, or unset with tcpMux off (default 90);
+   stated over the defaulting functions regenerated from Complete() by translator unit t14 *)
 Theorem C14_server_heartbeat_enabled_iff : forall tcpmux t,
-  hb_server_default tcpmux t > 0 <-> (t > 0 \/ (t = 0 /\ tcpmux = false)).
-Proof. exact hb_server_enabled_iff. Qed.
+  gen_hb_server_default tcpmux t > 0 <-> (t > 0 \/ (t = 0 /\ tcpmux = false)).
+Proof. exact gen_hb_server_enabled_iff. Qed.
 Print Assumptions C14_server_heartbeat_enabled_iff.
 
 Theorem C14_client_heartbeat_enabled_iff : forall tcpmux i t,
-  (fst (hb_client_default tcpmux i t) > 0 /\ snd (hb_client_default tcpmux i t) > 0) <->
+  (fst (gen_hb_client_default tcpmux i t) > 0 /\ snd (gen_hb_client_default tcpmux i t) > 0) <->
   ((i > 0 \/ (i = 0 /\ tcpmux = false)) /\ (t > 0 \/ (t = 0 /\ tcpmux = false))).
-Proof. exact hb_client_enabled_iff. Qed.
+Proof. exact gen_hb_client_enabled_iff. Qed.
 Print Assumptions C14_client_heartbeat_enabled_iff.
 
 (* ---- invalid pings ---- *)
@@ -122,35 +124,54 @@ Proof. exact hb_cli_pong_err_closes. Qed.
 Print Assumptions C14_pong_error_closes_session.
 
 (* ---- clause 4: bounded, positive, non-tight retry delays ---- *)
-(* The option sets, as written in client/service.go and client/control.go (Model/Backoff.v):
-     fb_login_opts M  : Duration 1 s, Factor 2, Jitter 0.1, MaxDuration M        (M = 10 s first login, 20 s later)
-     fb_keep_opts     : the same with MaxDuration 20 s, FastRetryCount 3, FastRetryDelay 200 ms,
+(* The option sets are the ones translator unit t14 reads from the wait.FastBackoffOptions literals in
+   client/service.go and client/control.go on every run (coq/gen/GenBackoffOpts.v); today:
+     gen_login_opts M : Duration 1 s, Factor 2, Jitter 0.1, MaxDuration M        (M = gen_first_login_max = 10 s, gen_relogin_max = 20 s)
+     gen_keep_opts    : the same with MaxDuration 20 s, FastRetryCount 3, FastRetryDelay 200 ms,
                         FastRetryJitter 0.5, FastRetryWindow 1 min
-     fb_ping_opts I   : Duration I s, InitDurationIfFail 1 s, Factor 2, Jitter 0.1, MaxDuration I s
+     gen_ping_opts I  : Duration I s, InitDurationIfFail 1 s, Factor 2, Jitter 0.1, MaxDuration I s
+   A changed literal either still meets the side conditions of the range theorem (re-checked by the
+   generic scripts in Proofs/GenBackoffProofs.v) or breaks these obligations.
    Whatever the clock readings, the outcomes of the attempts and the random source, every delay
    BackoffUntil waits lies in the stated interval and the loop never reaches the
    NewTicker/Ticker.Reset panic on a non-positive duration. *)
 Theorem C14_backoff_bounded_and_positive_login : forall M sliding now0 j0 l ds e,
   fb_second <= M -> bu_js_ok l ->
-  bu_run sliding (fb_login_opts M) now0 j0 l = (ds, e) ->
+  bu_run sliding (gen_login_opts M) now0 j0 l = (ds, e) ->
   Forall (fun d => fb_second <= d <= M) ds /\ e <> BUPanic.
-Proof. intros M sliding now0 j0 l ds e HM. exact (bu_run_range sliding _ _ _ now0 j0 l ds e (fb_login_wf M HM)). Qed.
+Proof. intros M sliding now0 j0 l ds e HM. exact (bu_run_range sliding _ _ _ now0 j0 l ds e (gen_login_wf M HM)). Qed.
 Print Assumptions C14_backoff_bounded_and_positive_login.
 
 Theorem C14_backoff_bounded_and_positive_keep : forall sliding now0 j0 l ds e,
   bu_js_ok l ->
-  bu_run sliding fb_keep_opts now0 j0 l = (ds, e) ->
+  bu_run sliding gen_keep_opts now0 j0 l = (ds, e) ->
   Forall (fun d => 200 * fb_ns_ms <= d <= 20 * fb_second) ds /\ e <> BUPanic.
-Proof. intros sliding now0 j0 l ds e. exact (bu_run_range sliding _ _ _ now0 j0 l ds e fb_keep_wf). Qed.
+Proof. intros sliding now0 j0 l ds e. exact (bu_run_range sliding _ _ _ now0 j0 l ds e gen_keep_wf). Qed.
 Print Assumptions C14_backoff_bounded_and_positive_keep.
 
 (* the ping sender never waits longer than the configured interval (and never spins) *)
 Theorem C14_ping_sender_period_bounded : forall I sliding now0 j0 l ds e,
   0 < I -> bu_js_ok l ->
-  bu_run sliding (fb_ping_opts I) now0 j0 l = (ds, e) ->
+  bu_run sliding (gen_ping_opts I) now0 j0 l = (ds, e) ->
   Forall (fun d => Z.min I 2 * fb_second <= d <= I * fb_second) ds /\ e <> BUPanic.
-Proof. intros I sliding now0 j0 l ds e HI. exact (bu_run_range sliding _ _ _ now0 j0 l ds e (fb_ping_wf I HI)). Qed.
+Proof. intros I sliding now0 j0 l ds e HI. exact (bu_run_range sliding _ _ _ now0 j0 l ds e (gen_ping_wf I HI)). Qed.
 Print Assumptions C14_ping_sender_period_bounded.
+
+(* the maxima the two call sites of loopLoginUntilSuccess pass are admissible (>= 1 s), and all three
+   loops are run with sliding = true *)
+Theorem C14_login_call_sites_admissible :
+  fb_second <= gen_first_login_max /\ fb_second <= gen_relogin_max /\
+  gen_login_sliding = true /\ gen_keep_sliding = true /\ gen_ping_sliding = true.
+Proof. exact (conj (proj1 gen_login_maxima_ok) (conj (proj2 gen_login_maxima_ok) gen_all_sliding)). Qed.
+Print Assumptions C14_login_call_sites_admissible.
+
+(* the session-loop model's only "give up" step is loginFunc's `if firstLoginExit { svr.cancel }`:
+   t14 checks that login() and keepControllerWorking contain no svr.cancel and loopLoginUntilSuccess
+   exactly that one, that Run passes the LoginFailExit setting and keepControllerWorking the constant false *)
+Theorem C14_relogin_never_cancels_in_source :
+  gen_login_cancel_only_under_first_login_exit = true /\ gen_first_login_exit_from_cfg = true /\ gen_relogin_exit = false.
+Proof. repeat split; reflexivity. Qed.
+Print Assumptions C14_relogin_never_cancels_in_source.
 
 (* no tight loop: for every option set and every history of calls, a stretch whose clock readings
    span at most FastRetryWindow contains at most 2 * FastRetryCount fast retries, ... *)
@@ -166,10 +187,10 @@ Print Assumptions C14_fast_retries_bounded_per_window.
    witness: keepControllerWorking's options, an error every second -> 5 fast retries in 6 s;
    replayed on the real fastBackoffImpl by the backoff driver's fixed first case) *)
 Theorem C14_fast_retries_single_quota_refuted :
-  forallb (fun x => (0 <=? fc_now x) && (fc_now x <=? 0 + fo_fast_window fb_keep_opts)) fb_quota_witness_win = true /\
-  fb_count_fast (fb_calls fb_keep_opts (fb_after_calls fb_keep_opts fb_init fb_quota_witness_pre) fb_quota_witness_win) = 5 /\
-  fo_fast_count fb_keep_opts = 3.
-Proof. exact fb_single_quota_refuted. Qed.
+  forallb (fun x => (0 <=? fc_now x) && (fc_now x <=? 0 + fo_fast_window gen_keep_opts)) fb_quota_witness_win = true /\
+  fb_count_fast (fb_calls gen_keep_opts (fb_after_calls gen_keep_opts fb_init fb_quota_witness_pre) fb_quota_witness_win) = 5 /\
+  fo_fast_count gen_keep_opts = 3.
+Proof. exact gen_single_quota_refuted. Qed.
 Print Assumptions C14_fast_retries_single_quota_refuted.
 
 (* ... never more than FastRetryCount of them in a row, ... *)
@@ -183,38 +204,55 @@ Print Assumptions C14_fast_retries_never_more_than_count_in_a_row.
 (* ... and every other retry after an error at least doubles the previous delay up to the cap *)
 Theorem C14_slow_retry_doubles : forall cec prev j,
   0 < prev -> 0 <= j < fb_JS ->
-  Z.min (2 * prev) (20 * fb_second) <= fb_slow fb_keep_opts cec prev j.
-Proof.
-  intros cec prev j Hp Hj.
-  exact (fb_slow_grows fb_keep_opts _ _ cec prev j fb_keep_wf Hp (or_intror eq_refl) Hj).
-Qed.
+  Z.min (2 * prev) (20 * fb_second) <= fb_slow gen_keep_opts cec prev j.
+Proof. exact gen_slow_retry_doubles. Qed.
 Print Assumptions C14_slow_retry_doubles.
 
 (* ---- clause 5: a new session re-sends every configured registration; the loop never gives up ---- *)
-Theorem C14_relogin_resends_all : forall cfg evs,
-  let st := rl_run (rl_init cfg) evs in
+(* [ef] = common.LoginFailExit (default true); the flag keepControllerWorking passes to its
+   loopLoginUntilSuccess is the generated constant gen_relogin_exit *)
+Theorem C14_relogin_resends_all : forall cfg ef evs,
+  let st := rl_run (rl_init cfg ef gen_relogin_exit) evs in
   rl_phase_of st = PLogin ->
   let st' := rl_step st RLoginOk in
   rl_phase_of st' = PRunning /\
   exists m, rl_ctl st' = Some m /\ rl_history st' = m :: rl_history st /\
     (forall n c, In (n, c) m <-> rl_lookup n (rl_cfg st) = Some c) /\
     (forall n c, In (n, c) (rl_cfg st) -> exists c', In (n, c') m).
-Proof. exact rl_relogin_resends_all. Qed.
+Proof. exact (fun cfg ef => rl_relogin_resends_all cfg ef gen_relogin_exit). Qed.
 Print Assumptions C14_relogin_resends_all.
 
-(* after any sequence of failed logins, lost sessions and reloads — as long as nobody stops the
-   service — the client is either running a session or about to make a login attempt *)
+(* Whatever loginFailExit says: once one login has succeeded, no sequence of lost sessions, failed or
+   REFUSED logins and reloads — as long as nobody stops the service — makes the loop halt: the client
+   is either running a session or about to make a login attempt. *)
+Theorem C14_client_never_gives_up_after_first_login : forall cfg ef pre post,
+  let s0 := rl_run (rl_init cfg ef gen_relogin_exit) pre in
+  rl_phase_of s0 = PLogin ->
+  ~ In RStop post ->
+  let st := rl_run (rl_step s0 RLoginOk) post in
+  rl_phase_of st = PLogin \/ (rl_phase_of st = PRunning /\ exists m, rl_ctl st = Some m).
+Proof. exact rl_never_gives_up_after_first_login. Qed.
+Print Assumptions C14_client_never_gives_up_after_first_login.
+
+(* with loginFailExit off the same holds from the very first attempt *)
 Theorem C14_client_never_gives_up : forall cfg evs,
   ~ In RStop evs ->
-  let st := rl_run (rl_init cfg) evs in
+  let st := rl_run (rl_init cfg false gen_relogin_exit) evs in
   rl_phase_of st = PLogin \/ (rl_phase_of st = PRunning /\ exists m, rl_ctl st = Some m).
 Proof. exact rl_never_gives_up. Qed.
 Print Assumptions C14_client_never_gives_up.
 
-Theorem C14_session_end_leads_to_login : forall cfg evs,
-  let st := rl_run (rl_init cfg) evs in
+(* (by design, outside the property: with loginFailExit on, a failure of the FIRST login stops frpc) *)
+Theorem C14_first_login_failure_exits_when_configured : forall cfg er,
+  rl_phase_of (rl_step (rl_init cfg true er) RLoginFail) = PStopped /\
+  rl_phase_of (rl_step (rl_init cfg true er) RLoginRefused) = PStopped.
+Proof. exact rl_first_login_failure_exits. Qed.
+Print Assumptions C14_first_login_failure_exits_when_configured.
+
+Theorem C14_session_end_leads_to_login : forall cfg ef evs,
+  let st := rl_run (rl_init cfg ef gen_relogin_exit) evs in
   rl_phase_of st = PRunning -> rl_phase_of (rl_step st RSessionEnd) = PLogin.
-Proof. exact rl_session_end_relogin. Qed.
+Proof. exact (fun cfg ef => rl_session_end_relogin cfg ef gen_relogin_exit). Qed.
 Print Assumptions C14_session_end_leads_to_login.
 
 (* ---- the hypotheses are satisfiable; the bounds are attained ---- *)
@@ -237,11 +275,12 @@ Proof. vm_compute. repeat split; discriminate. Qed.
    slow retry that resets the window, three fast retries, then doubling up to the 20 s cap *)
 Example C14_ex_keep_delays :
   let att := fun k => {| ba_out := BErr; ba_now := k * fb_second; ba_j := 0 |} in
-  fst (bu_run true fb_keep_opts 0 0 (map att [1;2;3;4;5;6;7;8;9;10;11;12;13;14])) =
+  fst (bu_run gen_keep_sliding gen_keep_opts 0 0 (map att [1;2;3;4;5;6;7;8;9;10;11;12;13;14])) =
   map (fun ms => ms * fb_ns_ms) [200; 200; 400; 200; 200; 200; 400; 800; 1600; 3200; 6400; 12800; 20000; 20000].
 Proof. vm_compute. reflexivity. Qed.
 
 Example C14_ex_relogin :
-  let st := rl_run (rl_init [(1, 10); (2, 20); (1, 11)]) [RLoginFail; RLoginFail; RLoginOk; RSessionEnd; RLoginFail; RLoginOk] in
+  let st := rl_run (rl_init [(1, 10); (2, 20); (1, 11)] false gen_relogin_exit)
+                  [RLoginFail; RLoginFail; RLoginOk; RSessionEnd; RLoginRefused; RLoginOk] in
   rl_history st = [[(1, 10); (2, 20)]; [(1, 10); (2, 20)]] /\ rl_attempts st = 5.
 Proof. vm_compute. split; reflexivity. Qed.
